@@ -879,7 +879,7 @@ def e2e_project(rng, nmax: int) -> dict:
             t['ee'] = 3
         if rng.random() < 0.12:
             t['to'] = 1
-            t['dur'] = 30.0        # far beyond the limit: must be terminated
+            t['dur'] = 8.0         # far beyond the limit: must be terminated
         elif rng.random() < 0.3:
             t['to'] = 20           # far above the duration
         if rng.random() < 0.12:
@@ -975,7 +975,7 @@ def e2e_oracle(proj: dict, opts: dict, p: subprocess.CompletedProcess, loglines:
             if got != 'TIMEOUT' and got != 'INTERRUPT':
                 bad.append(('misclassified', f'test {k[0]} exceeds its 1s limit but is reported {got}'))
             if ended.get(k) == 'E':
-                bad.append(('timeout-ignored', f'test {k[0]} ran to its end (30s) despite timeout 1'))
+                bad.append(('timeout-ignored', f'test {k[0]} ran to its end ({t["dur"]}s) despite timeout 1'))
         elif ended.get(k) == 'E':
             if t.get('proto') == 'tap':
                 exp = o_classify_tap(t['out'], t['rc'], t.get('sf', False))
@@ -1087,9 +1087,12 @@ def e2e_stream(ctx: Ctx, nproj: int, nruns: int) -> None:
                 ctx.count()
                 ctx.tag('e2e:run')
                 case = {'stream': 'e2e', 'project': proj, 'opts': o, 'seed': ctx.seed}
-                for kind, msg in e2e_oracle(proj, o, p, loglines, jl, sel_run):
+                e2e_bad = e2e_oracle(proj, o, p, loglines, jl, sel_run)
+                for kind, msg in e2e_bad:
                     ctx.violation('e2e:' + kind + ':' + json.dumps([proj, o], sort_keys=True), msg,
                                   dict(case, kind=kind, stdout=p.stdout[-800:], log=loglines[:40]))
+                if e2e_bad and len(ctx.violations) >= 3:
+                    return          # enough failing inputs; do not spend minutes on a broken tree
                 # the model must accept the logged trace as well
                 # the test programs' own log orders S lines after the harness-level start and E lines before
                 # the harness-level report; that is harmless for the model unless the order of reports and
